@@ -448,3 +448,67 @@ def rule_df(ctx):
     ctx.check(not problems, "EX.DF", fi.qual, fi, fi.node, "df(): self.data with the session mnemonics as columns, first curve as index",
               "; ".join(problems))
     ctx.floor("EX.DF", 1)
+
+
+def rule_dictview(ctx):
+    """EX.JSON-KEYS: the header part of the JSON document is keyed by session mnemonics (pairwise distinct), so every item
+    is carried; keys built from useful/original mnemonics collapse duplicates"""
+    p = ctx.p
+    fi = p.func("las_items.SectionItems.dictview")
+    rets = [s_.value for s_ in walk_shallow(fi.node) if isinstance(s_, ast.Return) and s_.value is not None]
+    problems = []
+    if len(rets) != 1:
+        problems.append("dictview has %d returns" % len(rets))
+    else:
+        v = rets[0]
+        keytxt = None
+        if isinstance(v, ast.Call) and isinstance(v.func, ast.Name) and v.func.id == "dict" and v.args and isinstance(v.args[0], ast.Call) \
+                and isinstance(v.args[0].func, ast.Name) and v.args[0].func.id == "zip" and len(v.args[0].args) == 2:
+            keytxt = ast.unparse(v.args[0].args[0])
+            valtxt = ast.unparse(v.args[0].args[1])
+            if keytxt not in ("self.keys()", "[item.mnemonic for item in self]", "[i.mnemonic for i in self]"):
+                problems.append("keys are `%s`" % keytxt)
+            if ".value" not in valtxt:
+                problems.append("values are `%s`" % valtxt)
+        elif isinstance(v, ast.DictComp):
+            attrs = {a.attr for a in ast.walk(v.key) if isinstance(a, ast.Attribute)}
+            if attrs != {"mnemonic"}:
+                problems.append("keys are `%s` (%s)" % (unparse(v.key), sorted(attrs)))
+            vattrs = {a.attr for a in ast.walk(v.value) if isinstance(a, ast.Attribute)}
+            if "value" not in vattrs:
+                problems.append("values are `%s`" % unparse(v.value))
+            if v.generators[0].ifs:
+                problems.append("items are filtered")
+        else:
+            problems.append("unrecognised construction `%s`" % unparse(v))
+    ctx.check(not problems, "EX.JSON-KEYS", fi.qual, fi, fi.node,
+              "dictview maps each item's session mnemonic to its value (one entry per item)",
+              "dictview: %s - items that share a mnemonic collapse into one entry and to_json() no longer carries every header "
+              "value" % "; ".join(problems))
+    ctx.floor("EX.JSON-KEYS", 1)
+
+
+def rule_table_literals(ctx):
+    """EX.TABLE-LITERALS: no implicit string concatenation inside the DEPTH_UNITS spelling table (a lost comma merges two
+    spellings into one unrecognisable entry)"""
+    import io
+    import tokenize
+    p = ctx.p
+    mod = p.module("defaults")
+    node = mod.globals.get("DEPTH_UNITS", [None])[0]
+    if node is None:
+        raise AnalysisError("defaults.DEPTH_UNITS not found")
+    lo, hi = node.lineno, node.end_lineno
+    toks = [t for t in tokenize.generate_tokens(io.StringIO(mod.source).readline)
+            if lo <= t.start[0] <= hi and t.type not in (tokenize.NL, tokenize.NEWLINE, tokenize.COMMENT, tokenize.INDENT, tokenize.DEDENT)]
+    bad = []
+    for a, b in zip(toks, toks[1:]):
+        if a.type == tokenize.STRING and b.type == tokenize.STRING:
+            bad.append((a.string, b.string, a.start[0]))
+    fi = p.func("defaults.get_default_items")
+    ctx.check(not bad, "EX.TABLE-LITERALS", "defaults.DEPTH_UNITS#literals", fi, node,
+              "every spelling in DEPTH_UNITS is its own tuple element",
+              "adjacent string literals %s in DEPTH_UNITS are concatenated into one entry (a comma is missing): neither "
+              "spelling is recognised any more, and a conflict involving it goes unnoticed" % ", ".join("%s %s (line %d)" % x for x in bad))
+    # every spelling selects the branch of its own key (catches entries that no longer contain their unit code)
+    ctx.floor("EX.TABLE-LITERALS", 1)
